@@ -23,3 +23,4 @@ pub mod proto;
 pub mod replx;
 pub mod session;
 pub mod storage;
+pub mod unix;
